@@ -239,8 +239,11 @@ def float_clause(ctx, cfgs):
         groups.setdefault(c["S"], []).append(c)
     args = ["--seed", str(ctx.seed), "--nrandom", "200" if ctx.tier == "quick" else "4000", "--fchain", "6" if ctx.tier == "quick" else "16"]
     recs, dropped, nprog = core.harness_farm(ctx, groups, make_src, cfgs, args, batch=5, tag="convf")
-    if dropped:
-        raise core.ToolError("floating conversion harness does not compile: %s" % (dropped[0][2],))
+    for d in dropped[:20]:
+        if not core.first_error_in_au(d[2]):
+            raise core.ToolError("floating conversion harness does not compile: %s" % (d[2],))
+        ctx.violation({"T": d[0]["S"], "N": d[0]["N"], "D": d[0]["D"], "call": "float-checkers", "kind": "rejected"},
+                      "same-rep checkers / conversion of a %s quantity by %s/%s do not compile [%s]: %s" % (d[0]["S"], d[0]["N"], d[0]["D"], d[1], d[2][:300]), detail=d[2])
     obs = [r for r in recs if r["k"] == "castf"]
     nval, bad = ctx.tlc_batch_validate("Trace_ConvF.tla", obs, name="convf")
     ctx.evaluations += len(obs)
